@@ -22,7 +22,8 @@ def twin_spec(r: random.Random, idx: int) -> dict:
             lv["lsc"] = {"kind": r.choice(["DontStop", "MetaepochLimit"]), "n": r.choice([2, 3])}
         levels.append(lv)
     spec = {"name": f"twin{idx}", "seed": r.randrange(1, 10 ** 6), "dim": r.choice([2, 3]),
-            "box": r.choice(["sym", "asym", "unit", "decimal"]), "fn": r.choice(["sphere", "multi", "funnels", "linear", "offset", "plateau", "plateau", "zero"]),
+            "box": r.choice(["sym", "asym", "unit", "decimal"]),
+            "fn": r.choice(["sphere", "multi", "funnels", "linear", "offset", "plateau", "plateau", "zero", "penalty", "penalty"]),
             "levels": levels, "hibernation": r.random() < 0.4,
             "gsc": r.choice([{"kind": "MetaepochLimit", "n": r.choice([3, 4, 5])},
                              {"kind": "SingularEvalLimit", "n": r.choice([60, 150])}]),
@@ -101,6 +102,28 @@ def repeat_triples(seed: int, n: int, n_sub: int) -> list[tuple[dict, dict, dict
             c["subprocess_hashseed"] = 1 + (i * 7919) % 4000
             c["name"] = a["name"] + "_subprocess"
         out.append((a, b, c))
+    return out
+
+
+def history_pairs(seed: int, n: int) -> list[tuple[dict, dict]]:
+    """(run in a fresh interpreter, the same run in a process that has optimised other objectives before - same seed, same
+    box, memoising problems): 'regardless of ... the process they run in'"""
+    r = random.Random(seed * 13 + 1)
+    out = []
+    for i in range(n):
+        levels = [r.choice([{"engine": "SEA", "pop": 8, "gens": 1}, {"engine": "DE", "pop": 8, "gens": 1}, {"engine": "SOBOL", "pop": 8}]),
+                  r.choice([{"engine": "CMA", "gens": 2}, {"engine": "DE", "pop": 5, "gens": 1}, {"engine": "LOCAL", "maxiter": 3}])]
+        levels[1]["lsc"] = {"kind": "MetaepochLimit", "n": 3} if levels[1]["engine"] != "LOCAL" else {"kind": "DontStop"}
+        a = {"name": f"hist{i}", "seed": r.randrange(1, 10 ** 6), "dim": 2, "box": r.choice(["sym", "unit"]), "fn": "funnels",
+             "maximize": False, "levels": levels, "hibernation": False, "gsc": {"kind": "MetaepochLimit", "n": 4},
+             "sprout": {"kind": "simple", "far": 0.03, "limit": 2}, "use_cache": i % 2 == 0, "subprocess_hashseed": 11 + i}
+        b = copy.deepcopy(a)
+        b.pop("subprocess_hashseed")
+        b["name"] = a["name"] + "_after_others"
+        b["prelude"] = [dict(copy.deepcopy(a), fn=f, name="prelude") for f in ("sphere", "multi")]
+        for p in b["prelude"]:
+            p.pop("subprocess_hashseed", None)
+        out.append((a, b))
     return out
 
 
